@@ -108,6 +108,13 @@ where
     }
 }
 
+#[cfg(bma400_verif)]
+impl TapConfig {
+    pub(crate) fn verif_regs(&self) -> [(u8, u8); 2] {
+        verif_regs!(self; tap_config0, tap_config1)
+    }
+}
+
 #[cfg(test)]
 mod tests {
     use super::*;
